@@ -137,6 +137,13 @@ func (tm *termer) build(v ssa.Value, d int) *Term {
 		return &Term{Op: "closure", Name: funcKey(fn), Fn: fn}
 	case *ssa.FieldAddr:
 		f := fieldOfAddr(x)
+		// a local copy of a struct that is only read (q := cfg.Resources.Memory; … q.Quota …) is the value it was
+		// copied from
+		if a, ok := x.X.(*ssa.Alloc); ok {
+			if sv := onlyWholeStore(a); sv != nil {
+				return mk("field", f.Name(), tm.term(sv, d+1))
+			}
+		}
 		return mk("field", f.Name(), tm.term(x.X, d+1))
 	case *ssa.Field:
 		f := fieldOfVal(x)
